@@ -119,6 +119,14 @@ def gen_reader(rng, tier):
             [S(nb - 1, 3), R(10), S(1, 0), R(total), C],
             [R(blocks[0]), R(1), S(1, 0), R(5), S(2, 0), R(5), S(0, 1), R(total), R(1), C],
         ]
+        # a Seek that fails in the underlying seeker, then the caller retries: the same
+        # offset, another offset, or reads first (seekk selects which Seek call fails)
+        scripts += [
+            [S(2, 0), S(2, 0), R(10), C],
+            [R(5), S(2, 0), S(2, 3), R(20), S(0, 0), R(10), C],
+            [S(1, 0), R(5), S(1, 0), R(total), C],
+            [S(2, 0), S(1, 0), R(10), S(2, 0), S(2, 0), R(10), C],
+        ]
         nrand = 2 if tier == 'quick' else 6
         for _ in range(nrand):
             s = []
